@@ -8,8 +8,8 @@ import (
 // calls (depth-bounded), together with the chain of calls leading to it.
 type DeepSite struct {
 	Instr ssa.Instruction
-	Fn    *ssa.Function          // function containing Instr
-	Chain []ssa.CallInstruction  // calls from the root function down to Fn (empty when Fn is the root)
+	Fn    *ssa.Function         // function containing Instr
+	Chain []ssa.CallInstruction // calls from the root function down to Fn (empty when Fn is the root)
 }
 
 // Helpers returns the module-internal functions fn calls statically (declared
